@@ -341,4 +341,50 @@ theorem buildDeclarations_ok (sp : DeclSpec) (p0 : String × Option Coord) (name
   simp only [List.map_cons] at hfirst h1 hmap ⊢
   simp only [DeclSkel.bnd, DeclSkel.pur, hfirst, h1, hmap]
 
+/-! ## the same without registration (`typedef_namespace=False`: parameters, struct members) -/
+
+theorem bdOne_noreg (sp : DeclSpec) (p0 : String × Option Coord) (names : List (String × Option Coord))
+    (hsp : SpecOK sp p0 names) (d : DI) (s : PState) :
+    bdOne sp false false d.info sp.qual s = .ok (declOut sp p0.2 (specNames p0 names) d, sp.qual) s := by
+  unfold specNames
+  have hnn : d.info.decl.isNone = false := by
+    have := d.raw_isNode
+    show d.raw.isNone = false
+    cases h : d.raw <;> simp_all [Val.isNode, Val.isNone]
+  have hco : ∀ st, valCoord d.info.decl "decl['decl'].coord" st = .ok d.coord st :=
+    fun st => valCoord_node d.raw_isNode _ st
+  have hinst : isInstance d.info.decl [.Enum, .Struct, .Union, .IdentifierType] = false := chain_notSpecNode _ _ _
+  have hfix := fixDeclNameType_ok d.x d.coord d.tco sp.qual sp.alignment sp.storage sp.function d.ms d.init p0 names
+  have hatom := fixAtomicSpecifiers_noop d.x d.coord d.tco p0.2 sp.qual sp.alignment sp.storage sp.function d.ms d.init
+    ((p0 :: names).map (·.1)) hsp.no_atomic
+  have hquals : (declPost d.x d.coord sp.qual sp.alignment sp.storage sp.function
+      (chainVal d.ms (tdFull d.x d.tco sp.qual (identType p0.2 ((p0 :: names).map (·.1))))) d.init).getAttr "quals" = some (.list sp.qual) := rfl
+  have hpre : mk .Decl d.coord [.none, .list sp.qual, .list sp.alignment, .list sp.storage, .list sp.function,
+      d.info.decl, d.info.init, d.info.bitsize] = declPre d.coord sp.qual sp.alignment sp.storage sp.function d.raw d.init := rfl
+  simp only [bdOne, hnn, Bool.false_eq_true, ↓reduceIte, DeclSkel.bnd, hco, hinst, hpre, hsp.type_eq]
+  simp only [DI.raw, hfix, attrOrCrash_some, DeclSkel.pur, DeclSkel.bnd, hatom, hquals, declOut]
+
+/-- `_build_declarations(spec, [decl], typedef_namespace=False)` for one declarator -/
+theorem buildDeclarations_one_noreg (sp : DeclSpec) (p0 : String × Option Coord) (names : List (String × Option Coord))
+    (hsp : SpecOK sp p0 names) (d0 : DI) (s : PState) :
+    buildDeclarations sp [d0.info] false s = .ok [declOut sp p0.2 (specNames p0 names) d0] s := by
+  have hbs : d0.info.bitsize.isNone = true := rfl
+  have hnn : d0.info.decl.isNone = false := by
+    have := d0.raw_isNode
+    show d0.raw.isNone = false
+    cases h : d0.raw <;> simp_all [Val.isNode, Val.isNone]
+  have hinst : isInstance d0.info.decl [.Enum, .Struct, .Union, .IdentifierType] = false := chain_notSpecNode _ _ _
+  have hinner : innerTypeDecl (d0.info.decl.size + 1) d0.info.decl = some (tdRaw d0.x d0.tco) := by
+    have := chain_size d0.ms (tdRaw d0.x d0.tco)
+    exact innerTypeDecl_chain d0.ms _ _ rfl (by show d0.ms.length < (chainVal d0.ms (tdRaw d0.x d0.tco)).size + 1; omega)
+  have hdn : (tdRaw d0.x d0.tco).getAttr "declname" = some (.str d0.x) := rfl
+  have hfirst : bdFirstFix sp [d0.info] d0.info s = .ok (sp, [d0.info]) s := by
+    have hsn : (Val.str d0.x).isNone = false := rfl
+    simp only [bdFirstFix, hbs, Bool.not_true, Bool.false_eq_true, ↓reduceIte, hnn, hinst, Bool.not_false, DeclSkel.bnd, hinner,
+      attrOrCrash_some, DeclSkel.pur, hdn, hsn]
+  have hone := bdOne_noreg sp p0 names hsp d0 s
+  have hmap := mapP_setQuals sp p0.2 (specNames p0 names) [d0] s
+  simp only [List.map_cons, List.map_nil] at hmap
+  simp only [buildDeclarations, hsp.no_typedef, DeclSkel.bnd, DeclSkel.pur, hfirst, bdLoop, hone, List.nil_append, hmap]
+
 end PycModel.BuildDecl
